@@ -24,16 +24,21 @@ def _model_to_dict(m):
     return out
 
 
-def _smt_worker(smt2, expect, timeout_ms, conn, tactic):
+def _smt_worker(ob, expect, timeout_ms, conn, tactic):
+    """runs in a forked child: the obligation's z3 terms live in the (copied) parent context"""
     t0 = time.time()
     try:
-        ctx = z3.Context()
-        if tactic:
-            s = z3.Tactic(tactic, ctx=ctx).solver()
-        else:
+        if isinstance(ob, str):
+            ctx = z3.Context()
             s = z3.Solver(ctx=ctx)
-        s.set("timeout", timeout_ms)
-        s.from_string(smt2)
+            s.set("timeout", timeout_ms)
+            s.from_string(ob)
+        else:
+            s = z3.Tactic(tactic).solver() if tactic else z3.Solver()
+            s.set("timeout", timeout_ms)
+            if ob.meta.get("mbqi") is False:
+                s.set("smt.mbqi", False)
+            ob.add_to(s)
         r = s.check()
         res = {"result": str(r), "time": time.time() - t0}
         if r == z3.sat:
@@ -98,7 +103,7 @@ def discharge(obls, budget_s=20.0, jobs=None, progress=None):
         elif ob.backend == "poly":
             todo.append((ob, "poly", ob.meta.get("pairs") or cas.identity_to_srepr(ob.goal)))
         else:
-            todo.append((ob, "smt", ob.smt2()))
+            todo.append((ob, "smt", ob))
     running = []   # (proc, conn, ob, kind, t_start, payload, stage)
     requeue = []
     ctx = mp.get_context("fork")
@@ -111,7 +116,8 @@ def discharge(obls, budget_s=20.0, jobs=None, progress=None):
             p = ctx.Process(target=_poly_worker, args=(payload, child))
         else:
             tactic = ob.meta.get("tactic") if stage == 0 else None
-            p = ctx.Process(target=_smt_worker, args=(payload, ob.expect, int(budget_s * 1000), child, tactic))
+            b_ = min(budget_s, 3.0) if ob.kind in ("cover", "canary") else budget_s
+            p = ctx.Process(target=_smt_worker, args=(payload, ob.expect, int(b_ * 1000), child, tactic))
         p.start()
         child.close()
         running.append([p, parent, ob, kind, time.time(), payload, stage])
@@ -146,7 +152,7 @@ def discharge(obls, budget_s=20.0, jobs=None, progress=None):
             requeue.append(ob)
             return
         if ob.status == "unknown" and kind == "smt":
-            r2 = _cvc5(payload, budget_s)
+            r2 = _cvc5(payload.smt2() if not isinstance(payload, str) else payload, budget_s)
             if r2 in ("unsat", "sat"):
                 ob.solver = "cvc5"
                 if ob.expect == "valid":
@@ -157,7 +163,7 @@ def discharge(obls, budget_s=20.0, jobs=None, progress=None):
     while queue or running or requeue:
         while requeue:
             ob_ = requeue.pop()
-            queue.append((ob_, "smt", ob_.smt2()))
+            queue.append((ob_, "smt", ob_))
             todo.append(None)
         while queue and len(running) < jobs:
             ob, kind, payload = queue.pop(0)
